@@ -17,6 +17,7 @@ var checks = map[string]func(string) int{
 	"C04": e2.RunC04,
 	"C05": e1.RunC05,
 	"C06": e2.RunC06,
+	"C07": e2.RunC07,
 	"C13": e1.RunC13,
 	"C14": e1.RunC14,
 	"C15": e1.RunC15,
